@@ -19,6 +19,9 @@ import (
 //go:embed lawlib.go.txt
 var LawLib string
 
+//go:embed derivelib.go.txt
+var DeriveLib string
+
 // RepoPath is the tree under test.
 func RepoPath() string {
 	if p := os.Getenv("VERIF_REPO"); p != "" {
